@@ -29,11 +29,14 @@ use crate::{
 type P = TagProblem;
 const INF: i64 = 1_000_000;
 
+/// added to every finite value by the rank projection (table "FZ" holds 0.0 and -0.0; rank 0 means "no objective")
+static RANK_SHIFT: std::sync::atomic::AtomicI64 = std::sync::atomic::AtomicI64::new(0);
+
 fn rank(v: f64) -> i64 {
     if v == f64::INFINITY {
         INF
     } else {
-        v as i64
+        v as i64 + RANK_SHIFT.load(Ordering::Relaxed)
     }
 }
 
@@ -138,12 +141,15 @@ fn exec(problem: &P, state: &mut State<'static, P>, a: &Value, k: usize) -> Valu
             ind.set_objective(v) as i64
         }),
         "evaluate" => {
-            if s == 1 {
+            // s = 0: sequential evaluator; s = k > 0: parallel evaluator inside a pool of k worker threads
+            if s >= 1 {
                 state.insert_evaluator(Parallel::<P>::new());
+                let pool = rayon::ThreadPoolBuilder::new().num_threads(s as usize).build().expect("rayon pool");
+                pool.install(|| comp(problem, state, PopulationEvaluator::new()))
             } else {
                 state.insert_evaluator(Sequential::<P>::new());
+                comp(problem, state, PopulationEvaluator::new())
             }
-            comp(problem, state, PopulationEvaluator::new())
         }
         "evaluate_missing" => {
             // a configuration that asks for an evaluator identifier nobody registered, run on a copy;
@@ -245,6 +251,8 @@ fn table(name: &str) -> Vec<f64> {
     match name {
         // index = tag; tag 0 unused
         "FQ" => vec![0.0, 2.0, 1.0, 2.0],
+        // with the two zeros: equal as objective values, different bit patterns (ranks are shifted by one)
+        "FZ" => vec![0.0, 2.0, 1.0, 2.0, f64::INFINITY, 3.0, 1.0, 0.0, -0.0],
         _ => vec![0.0, 2.0, 1.0, 2.0, f64::INFINITY, 3.0, 1.0],
     }
 }
@@ -252,6 +260,7 @@ fn table(name: &str) -> Vec<f64> {
 pub fn main(args: &Args) -> usize {
     let k = args.num("k", 2) as usize;
     let tname = args.get("table").unwrap_or("FQ").to_string();
+    RANK_SHIFT.store(if tname == "FZ" { 1 } else { 0 }, Ordering::Relaxed);
     let mut out = Out::create(&args.str("out"));
     let reset = |run: u64| json!({"run": run, "act": act("reset", 0, 0), "res": r("ok", 0), "pop": [], "best": {"s": 0, "o": 0},
                                   "arch": [], "evals": 0, "calls": 0});
@@ -306,7 +315,7 @@ pub fn main(args: &Args) -> usize {
                             51..=53 => act("round_trip", 0, 0),
                             54..=58 if n > 0 => act("evaluate_with", i, 0),
                             59..=62 if n > 0 => act("set_objective", i, 0),
-                            63..=74 => act("evaluate", 0, rng.gen_range(0..2)),
+                            63..=74 => act("evaluate", 0, rng.gen_range(0..5)),
                             75 => act("evaluate_missing", 0, rng.gen_range(0..5)),
                             76 => act("evaluate_nested", 0, rng.gen_range(1..4)),
                             77..=85 if all_eval => act("update_best", 0, 0),
